@@ -142,8 +142,8 @@ def HsCtx.Ok (c : HsCtx) : Prop := c.recvSeq ≤ 65535 ∧ c.incLen < 16777216
 
 abbrev T : Nat → Prop := fun _ => True
 
-theorem acceptSeq_le (isClient : Bool) (recv : Nat) (postHvr : Bool) (seq : Nat) :
-    (acceptSeq isClient recv postHvr seq).2.1 ≤ max recv seq := by
+theorem acceptSeq_le (isClient : Bool) (recv : Nat) (postHvr : Bool) (typ seq : Nat) :
+    (acceptSeq isClient recv postHvr typ seq).2.1 ≤ max recv seq := by
   unfold acceptSeq
   repeat' split
   all_goals (dsimp only; omega)
@@ -190,7 +190,7 @@ theorem onMessage_safe (isClient authenticated : Bool) (c : HsCtx) (m : HsMsg) {
     (hc : c.Ok) (hseq : m.seq ≤ 65535) (htot : m.total < 16777216)
     (h : ∀ c' n', c'.Ok → Q c' b n') : safe T (onMessage isClient authenticated c m) Q b n := by
   unfold onMessage
-  have ha := acceptSeq_le isClient c.recvSeq c.postHvr m.seq
+  have ha := acceptSeq_le isClient c.recvSeq c.postHvr m.typ m.seq
   obtain ⟨h1, h2⟩ := hc
   dsimp only
   apply safe_ite <;> intro hacc
